@@ -15,10 +15,33 @@ H = {
  "C04d_2": "missed at first; the claimed-bit rule (shared by C04 and C07) now demands that the claimed MACs are compared with the value that is opened afterwards",
  "C08d_1": "missed at first; check strengthened: R1.serde (no hand-written byte-buffer decoding of wire types)",
  "C18d_2": "missed at first (the slice sits in a new Context method and reaches the circuit through ctx.circ); R10.slice recognises the circuit vector by its element type",
+ "C04e_1": "missed at first; check strengthened: R2.8 whole-value (a compared word must not XOR distinct parts of the received message together); benign twin B37",
+ "C08e_1": "missed at first; check strengthened: R1.len (the length of a peer-sized vector bounds a slice of another container); benign twin B38",
+ "C08e_2": "missed at first; R1.len also treats the ciphertext handed to garble::decrypt as a vector whose length the garbler chooses (`row.len() - TAG_LEN`)",
+ "C19e_1": "missed at first (the lazy flag is read through mem::take, which the rule took for an unconditional seek); R19.drop follows the flag through take/replace and reborrows, and a condition it cannot tie to a writer flag is a violation; benign twin B39",
+ "C07e_2": "missed at first; R6.4 no longer counts a Label pad as private when its provenance contains a Label built from a literal (a `vec![Label(0); n]` table entry); benign twin B40",
+ "C14e_1": "missed at first; check strengthened: R9.queue queues|open (no per-peer byte queue is closed or dropped by the server core)",
+ "C03e_2": "reported from the start by R2.6 all-pairs, which only C04 ran; C02 and C03 run the rules of the echo layer as well now",
+ "C05e_2": "missed by C05 at first (C01.d only): the slot rule did not see `a..=b` (a RangeInclusive::new call, not an aggregate) as an integer range",
+ "C17e_2": "reported from the start by R9.handle, which only C14 ran; C17 runs the handle life-cycle rules as well now",
 }
 D = {
- "C18d_2": "recognition limit, not a finding: the evaluator range test is written inside the closure of Option::filter (`get(p_own).filter(|_| p_eval < p_max)`) and the remaining checks as a match on a tuple of flags with map_or; R10.field cannot locate the tests and fails closed (DESIGN 12.5)",
+ "C18d_2": "reported at first (recognition limit of R10.field); resolved: Iterator::find/any/all/position are modelled as the loops they abbreviate inside the validators and Option facts are threaded through tuple slots (DESIGN 12.7); silent now",
 }
+BH = {
+ "C01e_1": "reported at first (C01.a could not type the stream of a `next` inside a generic helper `fn next_random_share(it: &mut impl Iterator<..>, w)` spliced into the walkers); corrected: the stream is the variable the parameter is bound to",
+ "C02e_2": "reported at first (R2.1 counted comparison sites, so one comparison of a tuple of both Beaver MACs was `1 of 2`; R2.5 did not see a length test stored in a tuple of flags); corrected: MAC components are counted, stored length comparisons are followed",
+ "C04e_1": "reported at first (R2.1 bit-range only knew `b > 1`); corrected: a `match byte { 0 => .., 1 => .., _ => Err }` whose arms enumerate 0..=m is the range test",
+ "C04e_3": "reported at first (R2.7 took the position counter of `.enumerate()` over a received vector for message content, so `if k == i { continue }` looked like a peer-controlled skip); corrected",
+ "C05e_1": "reported at first (R5.slot / R6.5 lost the payload vector when its builder was moved into a helper function that returns it); corrected: the named local is followed to the vector the spliced builder filled",
+ "C06e_2": "reported at first (R6.2 lost the input bit across `inputs.get(i).ok_or(..)?`); corrected: aggregate edges of the modelled adaptor are followed",
+ "C07e_3": "reported at first (claimed-bit rule: the verified value is pushed into the opened vector after the check instead of being stored before); corrected: scalars stored or pushed into the opened vector count, up to the variable that receives the selected one of d0 / d1",
+ "C18e_2": "reported at first (validate rewritten as `iter().enumerate().find(..)` plus one match on a tuple of facts: R10.field / R10.dup could not see the tests); corrected: find/any/all/position are modelled as loops inside the validators, Option facts are threaded through tuple slots",
+}
+for sid, h in BH.items():
+    p = "/verif/benign_seeded/%s/meta.json" % sid
+    if os.path.exists(p):
+        m = json.load(open(p)); m["history"] = h; json.dump(m, open(p, "w"), indent=1)
 for sid, h in H.items():
     p = "/verif/seeded/%s/meta.json" % sid
     if os.path.exists(p):
